@@ -692,6 +692,105 @@ def seqprod(ctx, dim):
             if W is not None and np.all(np.isfinite(np.asarray(W.S, dtype=float))):
                 ex = ref.mp_exp_se3 if dim == 3 else ref.mp_exp_se2
                 cmp(ctx, cid, TWc.__name__ + '.prod', P, ex(np.asarray(W.S, dtype=float)), Mref, sc, '%s.prod() of %d values (reference exponential)' % (TWc.__name__, N))
+        if N >= 2:
+            multiconv(ctx, cid, dict(dim=dim, N=N, step='convert'), dim, seq, sc)
+
+
+def _conv(ctx, cid, site, P, f, refs, sc, what, get=None):
+    """a conversion applied to a multi-valued object: it either refuses loudly or returns one result per value, each equal to the reference"""
+    try:
+        v = f()
+    except Exception:
+        ctx.note('refused', site)
+        return
+    try:
+        vals = [get(x) for x in v] if get is not None else [np.asarray(x, dtype=float) for x in v]
+    except Exception as e:
+        ctx.fail(cid, site, 'mismatch', P, '%s: result of a multi-valued conversion cannot be read per value (%r)' % (what, e))
+        return
+    if len(vals) != len(refs):
+        ctx.fail(cid, site, 'mismatch', P, '%s: %d results for %d values' % (what, len(vals), len(refs)))
+        return
+    for i, (a, b) in enumerate(zip(vals, refs)):
+        if np.shape(a) != np.shape(b):
+            ctx.fail(cid, site, 'mismatch', dict(P, element=i), '%s: element %d has shape %s' % (what, i, np.shape(a)))
+            return
+        cmp(ctx, cid, site, dict(P, element=i), a, b, sc, '%s, element %d' % (what, i))
+
+
+def multiconv(ctx, cid, P, dim, seq, sc):
+    """conversions between representations applied to whole multi-valued objects"""
+    S = sm()
+    Ms = [M for _, M in seq]
+    Rs = [M[:dim, :dim] for M in Ms]
+    ts = [M[:dim, dim] for M in Ms]
+    A = lambda x: np.asarray(x.A, dtype=float)
+    if dim == 3:
+        X = S.SE3([M.copy() for M in Ms])
+        R = S.SO3([r.copy() for r in Rs])
+        Rh = [ref.rt(r, np.zeros(3)) for r in Rs]
+        qv = lambda x: ref.q2r(np.asarray(x.vec, dtype=float))
+        for src, o in (('SO3', R), ('SE3', X)):
+            _conv(ctx, cid, 'UnitQuaternion(%s)' % src, P, lambda o=o: S.UnitQuaternion(o), Rs, 1, 'UnitQuaternion(%s[N])' % src, get=qv)
+        try:
+            q = S.UnitQuaternion(R)
+            if len(q) != len(Rs):
+                q = None
+        except Exception:
+            q = None
+        if q is None:
+            q = S.UnitQuaternion([S.UnitQuaternion(r.copy()).vec for r in Rs])
+        _conv(ctx, cid, 'UnitQuaternion.R', P, lambda: q.R, Rs, 1, 'UnitQuaternion[N].R')
+        _conv(ctx, cid, 'UnitQuaternion.SO3', P, lambda: q.SO3(), Rs, 1, 'UnitQuaternion[N].SO3()', get=A)
+        _conv(ctx, cid, 'UnitQuaternion.SE3', P, lambda: q.SE3(), Rh, 1, 'UnitQuaternion[N].SE3()', get=A)
+        _conv(ctx, cid, 'SO3(SE3)', P, lambda: S.SO3(X), Rs, 1, 'SO3(SE3[N])', get=A)
+        _conv(ctx, cid, 'SE3(SO3)', P, lambda: S.SE3(R), Rh, 1, 'SE3(SO3[N])', get=A)
+        _conv(ctx, cid, 'SE3.SO3', P, lambda: S.SE3.SO3(R), Rh, 1, 'SE3.SO3(SO3[N])', get=A)
+        _conv(ctx, cid, 'SE3.R', P, lambda: X.R, Rs, 1, 'SE3[N].R')
+        _conv(ctx, cid, 'SE3.t', P, lambda: X.t, ts, sc, 'SE3[N].t')
+        _conv(ctx, cid, 'SO3.R', P, lambda: R.R, Rs, 1, 'SO3[N].R')
+        ex = lambda x: ref.mp_exp_se3(np.asarray(x.S, dtype=float))
+        _conv(ctx, cid, 'Twist3(SE3)', P, lambda: S.Twist3(X), Ms, sc, 'Twist3(SE3[N])', get=ex)
+        _conv(ctx, cid, 'SE3.Twist3', P, lambda: X.Twist3(), Ms, sc, 'SE3[N].Twist3()', get=ex)
+        try:
+            tw = S.Twist3([np.asarray(S.SE3(M.copy()).Twist3().S, dtype=float) for M in Ms])
+        except Exception:
+            tw = None
+        if tw is not None:
+            _conv(ctx, cid, 'Twist3.SE3', P, lambda: tw.SE3(), Ms, sc, 'Twist3[N].SE3()', get=A)
+            _conv(ctx, cid, 'Twist3.exp', P, lambda: tw.exp(), Ms, sc, 'Twist3[N].exp()', get=A)
+    else:
+        X = S.SE2([M.copy() for M in Ms])
+        R = S.SO2([r.copy() for r in Rs])
+        Rh = [ref.rt(r, np.zeros(2)) for r in Rs]
+        _conv(ctx, cid, 'SO2(SE2)', P, lambda: S.SO2(X), Rs, 1, 'SO2(SE2[N])', get=A)
+        _conv(ctx, cid, 'SE2(SO2)', P, lambda: S.SE2(R), Rh, 1, 'SE2(SO2[N])', get=A)
+        _conv(ctx, cid, 'SO2.SE2', P, lambda: R.SE2(), Rh, 1, 'SO2[N].SE2()', get=A)
+        _conv(ctx, cid, 'SE2.R', P, lambda: X.R, Rs, 1, 'SE2[N].R')
+        _conv(ctx, cid, 'SE2.t', P, lambda: X.t, ts, sc, 'SE2[N].t')
+        _conv(ctx, cid, 'SO2.R', P, lambda: R.R, Rs, 1, 'SO2[N].R')
+        M3 = []
+        for M in Ms:
+            E = np.eye(4)
+            E[:2, :2] = M[:2, :2]
+            E[:2, 3] = M[:2, 2]
+            M3.append(E)
+        _conv(ctx, cid, 'SE2.SE3', P, lambda: X.SE3(), M3, sc, 'SE2[N].SE3()', get=A)
+        ths = [np.array(math.atan2(r[1, 0], r[0, 0])) for r in Rs]
+        wrap = lambda x: np.array(math.atan2(math.sin(float(x)), math.cos(float(x))))
+        if all(abs(abs(float(t)) - math.pi) > 1e-6 for t in ths):
+            _conv(ctx, cid, 'SE2.theta', P, lambda: X.theta(), ths, 1, 'SE2[N].theta()', get=wrap)
+            _conv(ctx, cid, 'SO2.theta', P, lambda: R.theta(), ths, 1, 'SO2[N].theta()', get=wrap)
+        ex = lambda x: ref.mp_exp_se2(np.asarray(x.S, dtype=float))
+        _conv(ctx, cid, 'Twist2(SE2)', P, lambda: S.Twist2(X), Ms, sc, 'Twist2(SE2[N])', get=ex)
+        _conv(ctx, cid, 'SE2.Twist2', P, lambda: X.Twist2(), Ms, sc, 'SE2[N].Twist2()', get=ex)
+        try:
+            tw = S.Twist2([np.asarray(S.SE2(M.copy()).Twist2().S, dtype=float) for M in Ms])
+        except Exception:
+            tw = None
+        if tw is not None:
+            _conv(ctx, cid, 'Twist2.SE2', P, lambda: tw.SE2(), Ms, sc, 'Twist2[N].SE2()', get=A)
+            _conv(ctx, cid, 'Twist2.exp', P, lambda: tw.exp(), Ms, sc, 'Twist2[N].exp()', get=A)
 
 
 def shards(tier, seed):
